@@ -132,6 +132,7 @@ structure Store where
   cidx : KeyId → List Nat → Option ObjId := fun _ _ => none  -- cache.indexes[attrs]
   modColl : AttrId → ObjId → Bool := fun _ _ => false      -- cache.modified_collections
   modified : Bool := false                                 -- cache.modified (never restored by the code; not observed)
+  modKey : AttrId → Bool := fun _ => false                 -- the attribute is a KEY of the dict cache.modified_collections (never restored; not observed)
   seen : List IdxKey := []                                 -- ghost: every key ever inserted (for dumping the indexes)
 
 instance : Inhabited Store := ⟨{}⟩
@@ -300,10 +301,10 @@ def mark (o : ObjId) (bits : List AttrId) (force : Bool) (s : Store) : Store × 
   else if bits.isEmpty && !force then (s, false)                           -- `if wbits is not None and bit`
   else
     let s1 := s.upd o fun r => { r with wbits := fun a => r.wbits a || bits.contains a }
-    if r.status = .modified then (s1, false)
-    else
+    if r.status = .inserted || r.status = .updated then                    -- assert status in ('loaded', 'inserted', 'updated')
       let s2 := s1.upd o fun r => { r with status := .modified, savePos := some s1.toSave.length }
       ({ s2 with toSave := s2.toSave ++ [some o], modified := true }, true)
+    else (s1, false)                                                       -- status == 'modified'
 
 /-- `cache.update_simple_index(obj, attr, old_val, new_val, undo)`: `none` = CacheIndexError, else new store, recorded move, KeyError flag -/
 def moveSimple (o : ObjId) (a : AttrId) (old new : Option Nat) (s : Store) : Option (Store × List IdxMove × Bool) :=
@@ -389,8 +390,11 @@ def reverseAdd1 (c : AttrId) (item : ObjId) (obj : ObjId) (st : St) : Res :=
     let s2 := { s1 with modColl := set2 s1.modColl c obj true }
     .ok ((st.setStore s2).log (.revAdd c obj item inRemoved wasMod))
 
-def reverseAdd (c : AttrId) (objs : List ObjId) (item : ObjId) : St → Res :=
-  iter (reverseAdd1 c item) objs
+/-- `objects_with_modified_collections = cache.modified_collections[attr]` (a defaultdict: the key appears) -/
+def touchKey (c : AttrId) (st : St) : St := st.setStore { st.store with modKey := set1 st.store.modKey c true }
+
+def reverseAdd (c : AttrId) (objs : List ObjId) (item : ObjId) (st : St) : Res :=
+  iter (reverseAdd1 c item) objs (touchKey c st)
 
 /-- one iteration of `Set.reverse_remove(attr=c, objects, item, undo_funcs)` -/
 def reverseRemove1 (c : AttrId) (item : ObjId) (obj : ObjId) (st : St) : Res :=
@@ -406,8 +410,8 @@ def reverseRemove1 (c : AttrId) (item : ObjId) (obj : ObjId) (st : St) : Res :=
     let s2 := { s1 with modColl := set2 s1.modColl c obj true }
     .ok ((st.setStore s2).log (.revRemove c obj item inAdded wasMod))
 
-def reverseRemove (c : AttrId) (objs : List ObjId) (item : ObjId) : St → Res :=
-  iter (reverseRemove1 c item) objs
+def reverseRemove (c : AttrId) (objs : List ObjId) (item : ObjId) (st : St) : Res :=
+  iter (reverseRemove1 c item) objs (touchKey c st)
 
 /-! ## 7. Attribute.__set__ as a reverse call (reference attributes; they are never part of a key) -/
 
@@ -478,7 +482,7 @@ def rewriteSet (s : Store) (o : ObjId) (c : AttrId) (new : ObjId → Bool) (toAd
   let cnt : Int := ((List.range s.n).filter new).length
   let s1 := s.upd o fun r => { r with items := set1 r.items c new, count := set1 r.count c cnt,
                                       added := set1 r.added c added2, removed := set1 r.removed c removed2 }
-  { s1 with modColl := set2 s1.modColl c o true, modified := true }
+  { s1 with modColl := set2 s1.modColl c o true, modKey := set1 s1.modKey c true, modified := true }
 
 /-- `Set.__set__(attr=c, obj=o, new_items, undo_funcs)`; `del` is `Entity._delete_` (cascade branch).
     `isRev` = called with an undo list. -/
@@ -537,19 +541,21 @@ def finishDelete (sch : Schema) (o : ObjId) (st : St) : Res :=
   let r := st.store.row o
   let curStatus := r.status
   let curSavePos := r.savePos
+  if curStatus.isDel then .err .assertionError st else                      -- (cannot happen: the call returned at its start)
   let (s1, keys, missing) := popKeys sch o st.store
-  if missing then .err .keyError ((st.setStore s1).log (.del o curStatus curSavePos keys)) else
+  let e := fun (ks : List IdxKey) => Undo.del o curStatus curSavePos ks
+  if missing then .err .keyError ((st.setStore s1).log (e keys)) else
   if curStatus = .created then
     match curSavePos with
-    | none => .err .assertionError ((st.setStore s1).log (.del o curStatus curSavePos keys))     -- assert cur_save_pos is not None
+    | none => .err .assertionError ((st.setStore s1).log (e keys))          -- assert cur_save_pos is not None
     | some p =>
       let s2 := { (s1.upd o fun r => { r with savePos := none, status := .cancelled }) with toSave := s1.toSave.set p none }
       match r.pk with
-      | none => .ok ((st.setStore s2).log (.del o curStatus curSavePos keys))
+      | none => .ok ((st.setStore s2).log (e keys))
       | some pk =>
         if s2.pkIdx r.ent pk = some o then
-          .ok ((st.setStore { s2 with pkIdx := set2 s2.pkIdx r.ent pk none }).log (.del o curStatus curSavePos (keys ++ [.pk r.ent pk])))
-        else .err .keyError ((st.setStore s2).log (.del o curStatus curSavePos keys))
+          .ok ((st.setStore { s2 with pkIdx := set2 s2.pkIdx r.ent pk none }).log (e (keys ++ [.pk r.ent pk])))
+        else .err .keyError ((st.setStore s2).log (e keys))
   else
     let punched : Option Store :=
       if curStatus = .modified then
@@ -559,15 +565,16 @@ def finishDelete (sch : Schema) (o : ObjId) (st : St) : Res :=
       else if curSavePos.isSome then none                                    -- assert cur_save_pos is None
       else some s1
     match punched with
-    | none => .err .assertionError ((st.setStore s1).log (.del o curStatus curSavePos keys))
+    | none => .err .assertionError ((st.setStore s1).log (e keys))
     | some s2 =>
       let s3 := s2.upd o fun r => { r with savePos := some s2.toSave.length, status := .marked }
-      .ok ((st.setStore { s3 with toSave := s3.toSave ++ [some o], modified := true }).log (.del o curStatus curSavePos keys))
+      .ok ((st.setStore { s3 with toSave := s3.toSave ++ [some o], modified := true }).log (e keys))
 
 /-- `Entity._delete_(obj=o, undo_funcs)`; fuel stands for Python's recursion limit (cascade cycles) -/
 def delete (sch : Schema) : Nat → ObjId → St → Res
   | 0, _, st => .err .recursionError st
   | fuel + 1, o, st =>
+    if !(o < st.store.n) then .err .noSuchObject st else                     -- (not expressible in Python: a reference to no object)
     if (st.store.row o).status.isDel then .ok st else                        -- status in del_statuses: return
     let attrs := sch.attrsOf (st.store.row o).ent
     let colls := iter (fun (c : AttrId) (st : St) =>
@@ -741,7 +748,7 @@ def collAdd (sch : Schema) (o : ObjId) (c : AttrId) (items : List ObjId) (st : S
       let s1 := s.upd o fun r => { r with items := set1 r.items c (fun x => r.items c x || isNew x),
                                           count := set1 r.count c (r.count c + new.length),
                                           added := set1 r.added c added1, removed := set1 r.removed c removed1 }
-      .ok (st.setStore { s1 with modColl := set2 s1.modColl c o true, modified := true })
+      .ok (st.setStore { s1 with modColl := set2 s1.modColl c o true, modKey := set1 s1.modKey c true, modified := true })
   | _, _ => .err .noSuchAttr st
 
 /-- `SetInstance.remove(items)` -/
@@ -770,7 +777,7 @@ def collRemove (sch : Schema) (fuel : Nat) (o : ObjId) (c : AttrId) (items : Lis
       let s1 := s.upd o fun r => { r with items := set1 r.items c (fun x => r.items c x && !isOld x),
                                           count := set1 r.count c (r.count c - old.length),
                                           added := set1 r.added c added1, removed := set1 r.removed c removed1 }
-      .ok (st.setStore { s1 with modColl := set2 s1.modColl c o true, modified := true })
+      .ok (st.setStore { s1 with modColl := set2 s1.modColl c o true, modKey := set1 s1.modKey c true, modified := true })
   | _, _ => .err .noSuchAttr st
 
 def lookupArg (vals : List (AttrId × Arg)) (a : AttrId) : Option Arg := (vals.find? fun p => p.1 == a).map (·.2)
@@ -839,11 +846,9 @@ def flush (sch : Schema) (ids : List (ObjId × Nat)) (s : Store) : Store :=
       | some rd =>
         if rd.kind != .coll then true
         else if d.rev = c then true
-        -- the pair is handled once, from the side whose (entity name, attribute name) sorts first
-        else if d.ent < rd.ent || (d.ent = rd.ent && c < d.rev) then true
-        else
-          -- the other side is handled only when the first one is not in modified_collections at all
-          !((List.range s.n).any fun o => s.modColl d.rev o)
+        -- a many-to-many pair is handled once, from the side that is a key of modified_collections and whose
+        -- (entity name, attribute name) sorts first; the other side is skipped (`if reverse in modified_m2m: continue`)
+        else !(s.modKey d.rev && (rd.ent < d.ent || (rd.ent = d.ent && d.rev < c)))
       | none => true
     | none => true
   let s1 : Store := { s with row := fun o =>
@@ -874,7 +879,7 @@ def flush (sch : Schema) (ids : List (ObjId × Nat)) (s : Store) : Store :=
        | some p => { acc with pkIdx := set2 acc.pkIdx r0.ent p none }
        | none => acc)
     | _ => acc) s1
-  { s2 with toSave := [], modColl := fun _ _ => false, modified := false }
+  { s2 with toSave := [], modColl := fun _ _ => false, modKey := fun _ => false, modified := false }
 
 /-! ## 12. Operations and `step` -/
 
